@@ -2,7 +2,7 @@ SPECIFICATION Spec
 CONSTANTS
   Sets = {"A", "B"}
   Perms = {"PA"}
-  Deltas = {"d1", "d2", "d3", "d4", "d5", "d6", "d7", "d8"}
+  Deltas = {"d1", "d2", "d3", "d4", "d5", "d6", "d7", "d8", "d9"}
   Mech = {"pos", "order", "ovl", "meas"}
   MaxLen = 4
 INVARIANT Pure
